@@ -950,10 +950,22 @@ class _FloatShimMeta(type):
         return isinstance(inst, float)
 
 
+ROUND_FLOAT_OF_DECIMAL = [False]    # opt-in: float(Decimal) rounds to the nearest double (relative 2**-53)
+
+
 class FloatShim(metaclass=_FloatShimMeta):
     def __new__(cls, value: Any = 0.0) -> Any:  # type: ignore
         if isinstance(value, SStr):
             return value.to_float()
+        if ROUND_FLOAT_OF_DECIMAL[0] and isinstance(value, SDec) and Ctx.current is not None:
+            c = Ctx.current
+            r = c.fresh("float_of_decimal")
+            v = real(value.t)
+            eps = q(Fraction(1, 2 ** 54))
+            av = z3.If(v >= 0, v, -v)
+            c.axiom(z3.And(r - v <= eps * av, v - r <= eps * av))
+            c.stubs_used.add("float(Decimal): some double within a relative 2**-53 of the value")
+            return SReal(r)
         if is_sym(value):
             if Ctx.current is not None:
                 Ctx.current.stubs_used.add("float(x): exact conversion of a proxy")
@@ -1089,6 +1101,18 @@ def _subst_identity(obj: Any, orig: Any, new: Any, depth: int) -> Tuple[Any, boo
     return obj, False
 
 
+def _type_shim(*args: Any) -> Any:
+    if len(args) == 1:
+        x = args[0]
+        if isinstance(x, SInt):
+            return IntShim
+        if isinstance(x, SReal):
+            return FloatShim
+        if isinstance(x, SDec):
+            return DecimalShim
+    return type(*args)
+
+
 class Shims:
     """Context manager that rebinds names in the library's module namespaces."""
 
@@ -1126,6 +1150,9 @@ class Shims:
                             self._set(measured, name, new)
         if self.float_:
             self._set(measured, "float", FloatShim)
+        if self.int_ and self.float_ and self.decimal:
+            # `type(x)` of a proxy is the class the code would see for the number it stands for
+            self._set(measured, "type", _type_shim)
         return self
 
     def __exit__(self, *exc: Any) -> None:
